@@ -233,6 +233,9 @@ out = jnp.where(x <= 0.5, stance, swing)
         s.ob("C20.4", "G1Locomotion.reward", ok, "the reward asks for desired_foot_height(next_state.gait_phase, self.max_foot_height)", s.loc("G1Locomotion", "reward"), key="foot-height-args",
              detail="; ".join(show(c, maxlen=160) for c in calls))
     check_config_plumbing(s)
+    from .util import ctor_wiring
+    for cls_ in ("G1Locomotion", "G1Standing", "G1Standup"):
+        ctor_wiring(s, "C20.5", cls_, necessary_for="command components, gait frequency and the zero-command probability are the configured ones (zero included)")
     for r_, n_ in (("C20.1", 19), ("C20.2", 44), ("C20.3", 45), ("C20.4", 2), ("C20.5", 40)):
         s.floor(r_, n_)
 
